@@ -347,6 +347,15 @@ impl Debugger {
 
         let prolog = func.prolog()?;
         let epilog_begin = func.epilog_begin()?;
+        // The epilogue lasts until the code of another source line begins: the compiler may
+        // place basic blocks of the function body behind the epilogue.
+        let epilog_end = epilog_begin.as_ref().and_then(|eb| {
+            let mut place = eb.next()?;
+            while place.line_eq(eb) {
+                place = place.next()?;
+            }
+            Some(place.address)
+        });
         let dwarf = &self.debugee.debug_info(current_location.pc)?;
         let inline_ranges = func.inline_ranges();
 
@@ -381,6 +390,7 @@ impl Debugger {
                 // skip places in function epilog
                 if let Some(eb) = epilog_begin.as_ref()
                     && place.address > eb.address
+                    && epilog_end.is_none_or(|end| place.address < end)
                 {
                     match place.next() {
                         None => break,
